@@ -57,6 +57,10 @@ func NewEnv(dir string) (*Env, error) {
 		return nil, err
 	}
 
+	if sigStore, err = pki.KeyStoreFile("c", "bc"); err != nil {
+		return nil, err
+	}
+
 	return &Env{Srv: c10.NewServer(), PKI: pki, KeyStore: ks, KeyStore2: ks2, Keys: km}, nil
 }
 
